@@ -93,6 +93,7 @@ pub fn text(t: &T) -> String {
     }
 }
 
+#[derive(Clone)]
 pub struct Req {
     pub listener: String,
     pub connector: Option<String>,
